@@ -24,7 +24,7 @@ CONFIG = {
              'build_file calls judged; distinct_nontrivial = distinct (ancestor states, target state, mode, caught, '
              'fault position class)'),
     'exhaustive_layer': 'depth<=3 product of ancestor states x target states x modes x caught, incl. one fault run per mkdir/rename event',
-    'gates': ['mode:swallow', 'combos', 'fault_runs', 'fault_mkdir', 'fault_rename', 'mode:ok', 'mode:raise_before',
+    'gates': ['nested_cases', 'mode:swallow', 'combos', 'fault_runs', 'fault_mkdir', 'fault_rename', 'mode:ok', 'mode:raise_before',
               'mode:raise_after', 'mode:nocreate', 'mode:nonjson', 'setup_failures', 'caught', 'uncaught'],
 }
 
@@ -211,8 +211,40 @@ def run_combo(sh, anc, tgt, mode, catch, rng, fault_all=True):
             w.discard(tok)
 
 
+def nested_cases(sh, rng):
+    """a build_file whose function makes a nested build_file below the same freshly created
+    directories: outcomes (ok/fail) x (ok/fail) x inner caught/propagating x shared depth 1-3"""
+    for shared in (1, 2, 3):
+        for o_outer in ('ok', 'fail'):
+            for o_inner in ('ok', 'fail'):
+                for inner_catch in (True, False):
+                    for inner_first in (True, False):
+                        dirs = '/'.join('n%d' % i for i in range(shared))
+                        t_outer, t_inner = dirs + '/outer', dirs + '/sub/inner' if shared == 2 else dirs + '/inner'
+                        inner_stmt = ['bf', t_inner, 'I', {'catch': inner_catch}]
+                        ob = ([inner_stmt] if inner_first else []) + [['write', 'o']] + \
+                            ([] if inner_first else [inner_stmt]) + ([['raise', 'O']] if o_outer == 'fail' else [])
+                        funcs = {'O': {'kind': 'bf', 'idx': 1, 'body': ob},
+                                 'I': {'kind': 'bf', 'idx': 2,
+                                       'body': [['write', 'i']] + ([['raise', 'I']] if o_inner == 'fail' else [])}}
+                        probes = [['q', 'walk', '', 'M']] + [['q', 'is_dir', '/'.join('n%d' % i for i in range(k + 1)), 'M']
+                                                             for k in range(shared)]
+                        program = {'funcs': funcs, 'roots': [[['bf', t_outer, 'O', {'catch': True}]] + probes]}
+                        with Scratch('n') as sc:
+                            w = World(sc)
+                            for rnd in range(2):
+                                sr = w.build(program, program['roots'][0], {}, label=0)
+                                sh.evaluations += 1
+                                sh.count('nested_cases')
+                                sh.nt(('nested', shared, o_outer, o_inner, inner_catch, inner_first, rnd))
+                                if judge(sh, w, program, sr, 'nested|outer=%s|inner=%s' % (o_outer, o_inner)) or sr.divs:
+                                    break
+
+
 def run_shard(sh):
     rng = random.Random((sh.seed * 1000003 + sh.idx) & 0xffffffff)
+    if sh.idx % 4 == 1:
+        nested_cases(sh, rng)
     combos = []
     for depth in (1, 2, 3):
         for anc in anc_vectors(depth):
